@@ -165,3 +165,86 @@ example : walkV ([.pass, .evict, .notFound, .pass, .removeErr, .pass]) 0 [] [] =
 example : walkV ([.pass, .evict, .notFound, .pass]) 0 [] [] = .ok ([0, 3], [1], 4) := by decide
 
 end Goat.C08P
+
+namespace Goat.C08P
+open Goat Goat.App Goat.Prepare
+
+/-- **nothing is both selected and evicted, and everything reported was looked at**: the indices the handler selects are
+    entries that passed, the ones it evicts are entries that failed with a successful removal, all below the number of
+    entries it looked at -/
+theorem walkV_ok_members : ∀ (vs : List Verdict) (i : Nat) (sel ev : List Nat) (r : List Nat × List Nat × Nat),
+    walkV vs i sel ev = .ok r →
+    (∀ j ∈ r.1, j ∈ sel ∨ (i ≤ j ∧ j < r.2.2 ∧ vs[j - i]? = some .pass)) ∧
+    (∀ j ∈ r.2.1, j ∈ ev ∨ (i ≤ j ∧ j < r.2.2 ∧ vs[j - i]? = some .evict)) ∧ i ≤ r.2.2 ∧ r.2.2 ≤ i + vs.length
+  | [], i, sel, ev, r, h => by
+    simp only [walkV, Outcome.ok.injEq] at h; subst h
+    exact ⟨fun j hj => Or.inl (by simpa using hj), fun j hj => Or.inl (by simpa using hj), Nat.le_refl _, by simp⟩
+  | .evict :: vs, i, sel, ev, r, h => by
+    simp only [walkV] at h
+    obtain ⟨h1, h2, h3, h4⟩ := walkV_ok_members vs (i + 1) sel (i :: ev) r h
+    refine ⟨fun j hj => ?_, fun j hj => ?_, by omega, by simp only [List.length_cons]; omega⟩
+    · rcases h1 j hj with a | ⟨a, b, c⟩
+      · exact Or.inl a
+      · right; refine ⟨by omega, b, ?_⟩
+        have : j - i = (j - (i + 1)) + 1 := by omega
+        rw [this, List.getElem?_cons_succ]; exact c
+    · rcases h2 j hj with a | ⟨a, b, c⟩
+      · rcases List.mem_cons.mp a with e | e
+        · right; subst e; exact ⟨Nat.le_refl _, by omega, by simp⟩
+        · exact Or.inl e
+      · right; refine ⟨by omega, b, ?_⟩
+        have : j - i = (j - (i + 1)) + 1 := by omega
+        rw [this, List.getElem?_cons_succ]; exact c
+  | .notFound :: vs, i, sel, ev, r, h => by
+    simp only [walkV] at h
+    obtain ⟨h1, h2, h3, h4⟩ := walkV_ok_members vs (i + 1) sel ev r h
+    refine ⟨fun j hj => ?_, fun j hj => ?_, by omega, by simp only [List.length_cons]; omega⟩
+    · rcases h1 j hj with a | ⟨a, b, c⟩
+      · exact Or.inl a
+      · right; refine ⟨by omega, b, ?_⟩
+        have : j - i = (j - (i + 1)) + 1 := by omega
+        rw [this, List.getElem?_cons_succ]; exact c
+    · rcases h2 j hj with a | ⟨a, b, c⟩
+      · exact Or.inl a
+      · right; refine ⟨by omega, b, ?_⟩
+        have : j - i = (j - (i + 1)) + 1 := by omega
+        rw [this, List.getElem?_cons_succ]; exact c
+  | .removeErr :: vs, i, sel, ev, r, h => by simp [walkV] at h
+  | .pass :: vs, i, sel, ev, r, h => by
+    simp only [walkV] at h
+    split at h
+    · simp only [Outcome.ok.injEq] at h; subst h
+      dsimp only
+      refine ⟨fun j hj => ?_, fun j hj => Or.inl (by simpa using hj), by omega, by simp only [List.length_cons]; omega⟩
+      have hj' : j ∈ sel ∨ j = i := by simpa using hj
+      rcases hj' with e | e
+      · exact Or.inl e
+      · right; subst e; exact ⟨Nat.le_refl _, by omega, by simp⟩
+    · obtain ⟨h1, h2, h3, h4⟩ := walkV_ok_members vs (i + 1) (i :: sel) ev r h
+      refine ⟨fun j hj => ?_, fun j hj => ?_, by omega, by simp only [List.length_cons]; omega⟩
+      · rcases h1 j hj with a | ⟨a, b, c⟩
+        · rcases List.mem_cons.mp a with e | e
+          · right; subst e; exact ⟨Nat.le_refl _, by omega, by simp⟩
+          · exact Or.inl e
+        · right; refine ⟨by omega, b, ?_⟩
+          have : j - i = (j - (i + 1)) + 1 := by omega
+          rw [this, List.getElem?_cons_succ]; exact c
+      · rcases h2 j hj with a | ⟨a, b, c⟩
+        · exact Or.inl a
+        · right; refine ⟨by omega, b, ?_⟩
+          have : j - i = (j - (i + 1)) + 1 := by omega
+          rw [this, List.getElem?_cons_succ]; exact c
+
+/-- from an empty start: every selected entry passed, every evicted entry failed, nothing beyond what was looked at -/
+theorem walkV_ok_sound (vs : List Verdict) (r : List Nat × List Nat × Nat) (h : walkV vs 0 [] [] = .ok r) :
+    (∀ j ∈ r.1, j < r.2.2 ∧ vs[j]? = some .pass) ∧ (∀ j ∈ r.2.1, j < r.2.2 ∧ vs[j]? = some .evict) ∧ r.2.2 ≤ vs.length := by
+  obtain ⟨h1, h2, _, h4⟩ := walkV_ok_members vs 0 [] [] r h
+  refine ⟨fun j hj => ?_, fun j hj => ?_, by omega⟩
+  · rcases h1 j hj with a | ⟨_, b, c⟩
+    · simp at a
+    · exact ⟨b, by simpa using c⟩
+  · rcases h2 j hj with a | ⟨_, b, c⟩
+    · simp at a
+    · exact ⟨b, by simpa using c⟩
+
+end Goat.C08P
